@@ -342,3 +342,4 @@ def run(ctx):
     _run_rules(ctx)
     from .. import boundaries
     boundaries.check(ctx, 'C19.RB', 'C19')
+    boundaries.check_calls(ctx, 'C19.RC', 'C19')
